@@ -70,17 +70,15 @@ func c03(c *Ctx) {
 	r.Rule("SIBLING: getQuotaInfoUsedLimit returns GetRuntime() exactly under pluginArgs.EnableRuntimeQuota==true and GetMax() otherwise; snapshotPostFilterState fills usedLimit from getQuotaInfoUsedLimit, used from GetUsed, nonPreemptibleUsed from GetNonPreemptibleUsed")
 	if fn := c.Fn(quotaPluginPkg, "Plugin", "getQuotaInfoUsedLimit"); fn != nil {
 		okR, okM := false, false
-		for _, b := range fn.Blocks {
-			ret, ok := b.Instrs[len(b.Instrs)-1].(*ssa.Return)
-			if !ok {
-				continue
-			}
-			call, _ := an.ResultOfCall(ret.Results[0])
+		for _, alt := range an.ReturnAlts(fn) {
+			ret := alt.Ret
+			_ = ret
+			call, _ := an.ResultOfCall(alt.Results[0])
 			if call == nil {
 				continue
 			}
 			flagTrue, flagFalse := false, false
-			for _, g := range an.Guards(ret) {
+			for _, g := range alt.Guards {
 				if strings.HasSuffix(an.Path(g.Cond), ".EnableRuntimeQuota") {
 					flagTrue, flagFalse = g.Truth, !g.Truth
 				}
@@ -192,13 +190,11 @@ func c03(c *Ctx) {
 		d1, d2 := sink.Common().Args[2], sink.Common().Args[3]
 		bad := ""
 		nz := 0
-		for _, b := range fn.Blocks {
-			ret, ok := b.Instrs[len(b.Instrs)-1].(*ssa.Return)
-			if !ok {
-				continue
-			}
+		for _, alt := range an.ReturnAlts(fn) {
+			ret := alt.Ret
+			_ = ret
 			z1, z2 := false, false
-			for _, g := range an.Guards(ret) {
+			for _, g := range alt.Guards {
 				call, _ := an.ResultOfCall(g.Cond)
 				if call == nil || an.ShortCallee(&call.Call) != "IsZero" || !g.Truth {
 					continue
@@ -336,14 +332,12 @@ func c03recursive(c *Ctx, fn *ssa.Function) {
 	a0, a1 := an.Path(le.Common().Args[0]), an.Path(le.Common().Args[1])
 	r.Check(strings.Contains(a0, "Add(podRequest") && strings.Contains(a0, "GetUsed") && strings.Contains(a1, "getQuotaInfoUsedLimit"), "FLOW", key+"/comparison/operands", c.InstrPos(le),
 		"compares request+used with the selected limit", "ancestor comparison operands changed: "+a0+" <= "+a1)
-	for _, b := range fn.Blocks {
-		ret, ok := b.Instrs[len(b.Instrs)-1].(*ssa.Return)
-		if !ok {
-			continue
-		}
-		if statusKind(ret.Results[0]) == "success" {
+	for _, alt := range an.ReturnAlts(fn) {
+		ret := alt.Ret
+		_ = ret
+		if statusKind(alt.Results[0]) == "success" {
 			okRoot := false
-			for _, g := range an.Guards(ret) {
+			for _, g := range alt.Guards {
 				p := an.Path(g.Cond)
 				if g.Truth && strings.Contains(p, "curQuotaName ==") && strings.Contains(p, "root") {
 					okRoot = true
